@@ -277,7 +277,38 @@ var c35Durations = []int64{0, 1, -1, 999, 1000, 1500000000, 3600e9, math.MaxInt6
 // c35Build fills a configuration entirely from rng by reflection. level 0 keeps every
 // non-secret value benign (plain text, small positive numbers); level 1 makes every leaf hostile.
 // Secret leaves always get a unique token core; their decoration follows secretLevel.
-func c35Build(rng *verifkit.Rand, level, secretLevel int, unsupported map[string]bool) (*config.Config, map[string]string) {
+// c35Opts selects how a configuration is populated.
+type c35Opts struct {
+	level, secretLevel int
+	// which secret leaves are configured:
+	//   ""         every secret leaf with probability 7/8 (dense)
+	//   "only"     exactly the leaf whose instance path is target
+	//   "category" exactly the leaves of the category named target
+	//   "prob"     each secret leaf independently with probability num/den (0/den = none at all)
+	//   "lists"    like "prob", but only leaves inside list entries (peers/listeners/users ...)
+	mode     string
+	target   string
+	num, den int
+	listLen  int // >0: every list gets exactly this many entries
+}
+
+func (o c35Opts) keep(rng *verifkit.Rand, path, inst string) bool {
+	switch o.mode {
+	case "only":
+		return inst == o.target
+	case "category":
+		cat, _ := c35Classify(path)
+		return cat == o.target
+	case "prob":
+		return rng.Chance(o.num, o.den)
+	case "lists":
+		return strings.Contains(inst, "[") && rng.Chance(o.num, o.den)
+	}
+	return !rng.Chance(1, 8)
+}
+
+func c35Build(rng *verifkit.Rand, o c35Opts, unsupported map[string]bool) (*config.Config, map[string]string) {
+	level, secretLevel := o.level, o.secretLevel
 	cfg := &config.Config{}
 	cores := map[string]string{} // instance path -> core
 	seq := 0
@@ -299,7 +330,9 @@ func c35Build(rng *verifkit.Rand, level, secretLevel int, unsupported map[string
 			}
 		case reflect.Slice:
 			n := rng.Intn(4)
-			if n == 0 && rng.Bool() {
+			if o.listLen > 0 {
+				n = o.listLen
+			} else if n == 0 && rng.Bool() {
 				return // nil slice
 			}
 			s := reflect.MakeSlice(v.Type(), n, n)
@@ -315,7 +348,7 @@ func c35Build(rng *verifkit.Rand, level, secretLevel int, unsupported map[string
 			fill(v.Elem(), path, inst)
 		case reflect.String:
 			if _, sec := c35Classify(path); sec {
-				if rng.Chance(1, 8) {
+				if !o.keep(rng, path, inst) {
 					return // secret not configured
 				}
 				seq++
@@ -553,8 +586,9 @@ func c35Culprits(cfg *config.Config, leak func(*config.Config) bool) []string {
 
 func TestVerif_C35(t *testing.T) {
 	r := verifkit.Start(t, "C35", "redact")
-	r.Rule("PRNG configurations filled by reflection over config.Config (0-3 entries per list, every string leaf set); " +
-		"non-trivial = at least 3 secret fields hold a token and both renderings (Redacted() struct, String() text) were searched for every token; " +
+	r.Rule("PRNG configurations filled by reflection over config.Config (0-3 entries per list, every non-secret string leaf set); secret leaves populated densely (phases plain/benign/hostile) " +
+		"or sparsely (solo: each secret leaf instance alone at each list position; category: one statement category alone; sparse: each secret with probability 0..1/4; lists: secrets only in list entries); " +
+		"non-trivial = at least 3 (dense) / 1 (sparse phases) secret fields hold a token and both renderings (Redacted() struct, String() text) were searched for every token; " +
 		"distinct by hash of the canonical configuration dump")
 	r.Assume("a secret is revealed iff its alphanumeric token core occurs in the rendering verbatim, inside a decoded YAML scalar (incl. !!binary) or as aligned base64")
 
@@ -625,33 +659,87 @@ func TestVerif_C35(t *testing.T) {
 	// Phases. "benign": hostile secrets, benign rest (the YAML deep copy is not stressed).
 	// "hostile": every leaf hostile. "plain": everything printable (catches a dropped field cheaply).
 	type phase struct {
-		name               string
-		n                  int
-		level, secretLevel int
+		name       string
+		n          int
+		o          c35Opts
+		minSecrets int
 	}
 	phases := []phase{
-		{"plain", r.N(600, 10000), 0, 0},
-		{"benign", r.N(1200, 25000), 0, 1},
-		{"hostile", r.N(1600, 50000), 1, 1},
+		{"plain", r.N(500, 10000), c35Opts{level: 0, secretLevel: 0}, 3},
+		{"benign", r.N(900, 25000), c35Opts{level: 0, secretLevel: 1}, 3},
+		{"hostile", r.N(1200, 50000), c35Opts{level: 1, secretLevel: 1}, 3},
 	}
 	for _, ph := range phases {
 		ph := ph
 		// cases are independent and Redacted()/String() are pure: run them on a few workers
 		r.ParCases(ph.name, ph.n, 4, func(ci int, rng *verifkit.Rand) {
-			c35Case(r, ph.name, ci, rng, ph.level, ph.secretLevel)
+			c35Case(r, ph.name, ci, rng, ph.o, ph.minSecrets)
 		})
 	}
+
+	// Sparse secret populations: a redaction that depends on *which other* secrets are present
+	// (a shortcut such as "nothing sensitive here", a loop that is skipped when a list is
+	// empty, ...) only shows when few secrets are configured.
+	// "solo": every secret leaf instance alone, at every list position (lists have 3 entries).
+	allInst := map[string]string{}
+	{
+		_, cores := c35Build(verifkit.NewRand(1), c35Opts{mode: "prob", num: 1, den: 1, listLen: 3}, map[string]bool{})
+		allInst = cores
+	}
+	insts := make([]string, 0, len(allInst))
+	for inst := range allInst {
+		insts = append(insts, inst)
+	}
+	sort.Strings(insts)
+	r.Set("secret_leaf_instances_tried_alone", insts)
+	if len(insts) == 0 {
+		r.Inconclusive("no secret leaf instance found for the solo phase")
+	} else {
+		rounds := r.N(6, 60)
+		r.ParCases("solo", rounds*len(insts), 4, func(ci int, rng *verifkit.Rand) {
+			o := c35Opts{mode: "only", target: insts[ci%len(insts)], listLen: 3, level: (ci / len(insts)) % 2, secretLevel: (ci / len(insts) / 2) % 2}
+			c35Case(r, "solo", ci, rng, o, 1)
+		})
+	}
+	// "category": all leaves of exactly one statement category, everything else unset.
+	r.ParCases("category", r.N(20, 200)*len(c35Categories), 4, func(ci int, rng *verifkit.Rand) {
+		o := c35Opts{mode: "category", target: c35Categories[ci%len(c35Categories)].Name, level: rng.Intn(2), secretLevel: rng.Intn(2)}
+		if rng.Bool() {
+			o.listLen = rng.Range(1, 3)
+		}
+		c35Case(r, "category", ci, rng, o, 1)
+	})
+	// "sparse": each secret leaf present with a small probability (incl. none at all).
+	r.ParCases("sparse", r.N(900, 30000), 4, func(ci int, rng *verifkit.Rand) {
+		o := c35Opts{mode: "prob", den: 24, num: verifkit.Pick(rng, []int{0, 1, 1, 2, 3, 6}), level: rng.Intn(2), secretLevel: rng.Intn(2)}
+		c35Case(r, "sparse", ci, rng, o, 1)
+	})
+	// "lists": secrets only inside list entries (peers / listeners / socks5 users).
+	r.ParCases("lists", r.N(400, 15000), 4, func(ci int, rng *verifkit.Rand) {
+		o := c35Opts{mode: "lists", den: 12, num: verifkit.Pick(rng, []int{1, 2, 4, 12}), level: rng.Intn(2), secretLevel: rng.Intn(2)}
+		if rng.Bool() {
+			o.listLen = rng.Range(1, 3)
+		}
+		c35Case(r, "lists", ci, rng, o, 1)
+	})
+	for _, c := range c35Categories {
+		r.Require("configs_with_only_category:"+c.Name, 20)
+	}
+	r.Require("configs_with_a_single_secret", 150)
+	r.Require("configs_without_any_secret", 20)
+	r.Require("configs_with_secrets_only_in_list_entries", 200)
 	r.Require("secrets_planted", 10000)
 	r.Require("renderings_searched", 4000)
 	r.Require("clean_renderings", 1000)
 	r.Require("list_entry_secrets_planted", 2000)
 }
 
-func c35Case(r *verifkit.R, phase string, ci int, rng *verifkit.Rand, level, secretLevel int) {
+func c35Case(r *verifkit.R, phase string, ci int, rng *verifkit.Rand, o c35Opts, minSecrets int) {
+	level := o.level
 	seed := rng.U64()
 	unsup := map[string]bool{}
-	cfg, cores := c35Build(verifkit.NewRand(seed), level, secretLevel, unsup)
-	twin, _ := c35Build(verifkit.NewRand(seed), level, secretLevel, unsup)
+	cfg, cores := c35Build(verifkit.NewRand(seed), o, unsup)
+	twin, _ := c35Build(verifkit.NewRand(seed), o, unsup)
 	before := c35Dump(cfg)
 	if before != c35Dump(twin) {
 		r.Inconclusive("harness: twin configuration differs from original before the call")
@@ -669,7 +757,31 @@ func c35Case(r *verifkit.R, phase string, ci int, rng *verifkit.Rand, level, sec
 		}
 	}
 	r.Add("renderings_searched", 2)
-	r.Eval(before, len(cores) >= 3)
+	r.Eval(before, len(cores) >= minSecrets)
+	// population shape (what a redaction shortcut could key on)
+	cats := map[string]bool{}
+	inLists := 0
+	for inst := range cores {
+		c, _ := c35Classify(c35PathOf(inst))
+		cats[c] = true
+		if strings.Contains(inst, "[") {
+			inLists++
+		}
+	}
+	switch {
+	case len(cores) == 0:
+		r.Add("configs_without_any_secret", 1)
+	case len(cores) == 1:
+		r.Add("configs_with_a_single_secret", 1)
+	}
+	if len(cats) == 1 {
+		for c := range cats {
+			r.Add("configs_with_only_category:"+c, 1)
+		}
+	}
+	if len(cores) > 0 && inLists == len(cores) {
+		r.Add("configs_with_secrets_only_in_list_entries", 1)
+	}
 
 	witness := func(extra map[string]any) map[string]any {
 		w := map[string]any{"secrets": len(cores), "phase_level": level}
@@ -720,22 +832,22 @@ func c35Case(r *verifkit.R, phase string, ci int, rng *verifkit.Rand, level, sec
 	minimal := "(root-cause analysis is run for the first 12 leaking cases of a run only)"
 	if r.Counter("root_cause_analyses") < 12 {
 		r.Add("root_cause_analyses", 1)
-		work, _ := c35Build(verifkit.NewRand(seed), level, secretLevel, unsup)
+		work, _ := c35Build(verifkit.NewRand(seed), o, unsup)
 		culprits = c35Culprits(work, leakFn)
 		minimal = work.StringUnsafe()
 	}
 	if len(minimal) > 1500 {
 		minimal = minimal[:1500] + "..."
 	}
-	cats := map[string]bool{}
+	leakedSet := map[string]bool{}
 	for _, inst := range textLeaks {
-		cats[c35PathOf(inst)] = true
+		leakedSet[c35PathOf(inst)] = true
 	}
 	for _, sl := range structLeaks {
-		cats[c35PathOf(sl[strings.Index(sl, "<-")+2:])] = true
+		leakedSet[c35PathOf(sl[strings.Index(sl, "<-")+2:])] = true
 	}
 	var leakedFields []string
-	for p := range cats {
+	for p := range leakedSet {
 		leakedFields = append(leakedFields, p)
 	}
 	sort.Strings(leakedFields)
